@@ -26,9 +26,19 @@ def q(v):
 
 
 def qf(v):
+    """[n, d] -> float;  [n, d, k] -> the float k ulps next to n/d (SetSem!QU)."""
     if v[1] == 0:
         return float('inf') if v[0] > 0 else float('nan')
-    return float(q(v))
+    x = float(q(v))
+    if len(v) == 3:
+        for _ in range(abs(v[2])):
+            x = float(np.nextafter(x, np.inf if v[2] > 0 else -np.inf))
+    return x
+
+
+def has_ulp(d):
+    """A near-equal number somewhere in the descriptor: only the generic constructors reproduce it exactly."""
+    return any(len(t) == 3 for v in d['q'] for t in v) or any(has_ulp(s) for s in d['sub'])
 
 
 def to_q(x):
@@ -95,6 +105,8 @@ class Builder(object):
     def build(self, d, copy=1):
         cls = d['cls']
         sub = d['sub']
+        if has_ulp(d):
+            copy = 1 if cls not in WCLS else copy          # generic route (weightings: float arguments anyway)
         if copy == 3:
             alt = self.build_alt(d)
             if alt is not None:
@@ -163,7 +175,7 @@ class Builder(object):
             if grid.is_uniform and gr['s'] != 'negzero':
                 return odl.uniform_partition_fromgrid(grid, min_pt=mn, max_pt=mx)
             return odl.nonuniform_partition(*grid.coord_vectors, min_pt=mn, max_pt=mx)
-        if cls in ('TWConst', 'PWConst'):
+        if cls in ('TWConst', 'PWConst') and not has_ulp(d):
             ex, c = q(d['q'][0][0]) if d['q'][0][0][1] else None, q(d['q'][1][0])
             exv = float('inf') if ex is None else (int(ex) if ex.denominator == 1 else float(ex))
             return WCLS[cls](int(c) if c.denominator == 1 else float(c), exponent=exv)
